@@ -18,7 +18,12 @@ Model/Store.v for every operation on such an object:
   g.add_*/remove_*/update, g.nodes[n][k]=v,
   d[k]=v, del d[k], d.pop, x.name = s        PWrite
   g.nodes, g.predecessors(n), len(x) ...     PRead
-  containers / iteration / plain aliases     PFrom
+  x = y, joins, bb.inputs()/bb.outputs()     PAlias                   (BlackBox.inputs()/outputs() hand out the internal sets)
+  containers / iteration / element access    PFrom
+  cg.BlackBox(...)                           PAllocVal
+  <untracked value>.inputs()/.outputs()      PForeign                 (a BlackBox from a value parameter or module global)
+  s |= .., s &= .., s -= .., s ^= .., s.add/update/discard/remove/pop/clear/..._update on a pin set that is (an alias of)
+  a BlackBox's own set, attribute stores on a BlackBox       PWriteVal
 
 `if` becomes Choice, loops become Loop, every statement of a `try` body is optional.  Whether a Circuit method is a
 mutator is decided by this analysis (its summary writes through `self`), and the result is compared with the list the
@@ -56,6 +61,10 @@ G_MUT = {"add_node", "add_nodes_from", "add_edge", "add_edges_from", "remove_nod
          "remove_edges_from", "update", "clear"}
 D_RO = {"items", "keys", "values", "get", "__contains__", "__len__", "__iter__"}
 D_MUT = {"pop", "update", "clear", "setdefault", "popitem"}
+S_RO = {"__contains__", "__len__", "__iter__", "issubset", "issuperset", "isdisjoint", "union", "intersection", "difference",
+        "symmetric_difference", "copy"}
+S_MUT = {"add", "update", "discard", "remove", "pop", "clear", "difference_update", "intersection_update",
+         "symmetric_difference_update", "__ior__", "__iand__", "__isub__", "__ixor__"}
 NX_RO = {"ancestors", "descendants", "is_directed_acyclic_graph", "all_simple_paths", "topological_sort", "immediate_dominators",
          "find_cycle"}
 PURE = {"len", "set", "list", "sorted", "enumerate", "iter", "next", "isinstance", "str", "any", "all", "sum", "max", "min", "reduce",
@@ -79,7 +88,8 @@ VAL = Val()
 
 
 class Ref:
-    """an object of the store held in DSL variable `var`; kind: circ | graph | dict | box | gview (a view into graph `var`)"""
+    """an object of the store held in DSL variable `var`; kind: circ | graph | dict | box | gview (a view into graph `var`)
+    | bb (a BlackBox) | pins (a pin set that is, or may be, the internal set of the BlackBox in `var`)"""
 
     def __init__(self, var, kind, elem=None, isdict=False):
         self.var, self.kind, self.elem, self.isdict = var, kind, elem, isdict
@@ -239,6 +249,9 @@ class Interp:
         if isinstance(r, Ref):
             self.add(f"PRead {cstr(r.var)}")
 
+    def alias(self, dst, ref):
+        self.add(f"PAlias {cstr(dst)} {cstr(ref.var)}")
+
     def from_(self, dst, refs):
         self.add(f"PFrom {cstr(dst)} [{'; '.join(cstr(r.var) for r in refs)}]")
 
@@ -260,7 +273,7 @@ class Interp:
                 dst = keep                         # live across iterations / exception paths: same register (weak update)
             else:
                 dst = self.cx.newvar(self.scope.prefix + name)   # otherwise every assignment makes a new version of the name
-            self.from_(dst, [val])
+            self.alias(dst, val)
             self.scope.names[name] = Ref(dst, val.kind, val.elem, val.isdict)
         elif isinstance(val, (Tup, Fn)):
             self.scope.names[name] = val
@@ -315,10 +328,17 @@ class Interp:
         if isinstance(base, Ref):
             if base.kind == "box":
                 if isinstance(val, Ref):
+                    if val.kind == "pins":
+                        raise Shape(f"{self.where(node)}: a BlackBox's pin set is stored in a container")
                     self.from_(base.var, [base, val])
                 return
-            if isinstance(val, Ref):
+            if base.kind in ("bb", "pins"):
+                self.no_ref(val, node)
+                self.add(f"PWriteVal {cstr(base.var)}")       # bb.attr = ..., pins[...] = ...
+                return
+            if isinstance(val, Ref) and not (base.kind == "dict" and val.kind == "bb"):
                 raise Shape(f"{self.where(node)}: a tracked object is stored inside a {base.kind}")
+            self.no_ref(val, node)
             if base.kind == "circ" and isinstance(tgt, ast.Attribute) and tgt.attr in ("graph", "blackboxes"):
                 raise Shape(f"{self.where(node)}: assignment to .{tgt.attr}")
             self.add(f"PWrite {cstr(base.var)}")
@@ -331,6 +351,8 @@ class Interp:
                 raise Shape(f"{self.where(node)}: a tracked object is stored through {_norm(tgt)}")
 
     def grow_box(self, name, val, node, isdict=False):
+        if val.kind == "pins":
+            raise Shape(f"{self.where(node)}: a BlackBox's pin set is stored in a container")
         cur = self.scope.get(name)
         if isinstance(cur, Ref) and cur.kind == "box":
             self.from_(cur.var, [cur, val])
@@ -388,10 +410,10 @@ class Interp:
                     elif n not in env_b and n in env_a:
                         merged[n] = va
                 for j, v in join_b:
-                    self.from_(j, [v])
+                    self.alias(j, v)
                 b = self.pop()
                 for j, v in join_a:
-                    self.from_(j, [v])
+                    self.alias(j, v)
                 a = self.pop()
                 self.set_names(merged)
                 self.out[-1].append(("choice", a, b))
@@ -414,7 +436,13 @@ class Interp:
             v = self.ev(s.value)
             if isinstance(s.target, ast.Name):
                 cur = self.scope.get(s.target.id)
-                if isinstance(v, Ref):
+                if isinstance(cur, Ref) and cur.kind in ("pins", "bb"):
+                    # s |= .., s &= .., s -= .., s ^= ..: in place on a set object that is (an alias of) a BlackBox's own set
+                    self.no_ref(v, s)
+                    self.add(f"PWriteVal {cstr(cur.var)}")
+                elif isinstance(v, Ref) and v.kind in ("pins", "bb") and not (isinstance(cur, Ref) and cur.kind == "box"):
+                    self.read(v)                # fresh_set |= bb.inputs(): reads the BlackBox
+                elif isinstance(v, Ref):
                     if isinstance(cur, Ref) and cur.kind == "box":
                         self.from_(cur.var, [cur, v])
                     else:
@@ -521,6 +549,10 @@ class Interp:
                     return Tup([VAL, self.elem_of(Ref(it.var, "box", it.elem[1]), node, keyed=True)])
                 if it.elem in (None, "val"):
                     return VAL if it.elem == "val" else Ref(it.var, "box")
+                if it.elem == "bb":
+                    t = self.cx.tmp("bb")
+                    self.from_(t, [it])
+                    return Ref(t, "bb")
                 return Ref(it.var, it.elem)
             self.read(it)        # iterating a circuit, graph, dict or graph view yields names
         return VAL
@@ -569,8 +601,22 @@ class Interp:
                 if e.attr in ("nodes", "edges", "_node", "_adj", "_pred", "_succ", "adj", "pred", "succ"):
                     return Ref(b.var, "gview")
                 raise Shape(f"{self.where(e)}: attribute .{e.attr} of a graph outside a call")
+            if b.kind == "bb":
+                if e.attr in ("input_set", "output_set"):
+                    return Ref(b.var, "pins")
+                if e.attr == "name":
+                    self.read(b)
+                    return VAL
             raise Shape(f"{self.where(e)}: attribute .{e.attr} of a {b.kind}")
+        if e.attr in ("input_set", "output_set") and not isinstance(b, (Tup, Fn)):
+            return self.foreign()
         return VAL
+
+    def foreign(self):
+        """the pin set of a BlackBox that is not tracked: a value parameter, a module global"""
+        t = self.cx.tmp("ext")
+        self.add(f"PForeign {cstr(t)}")
+        return Ref(t, "pins")
 
     def ev_Subscript(self, e):
         self.no_ref(self.ev(e.slice), e)
@@ -584,6 +630,10 @@ class Interp:
                     return VAL
                 return Ref(b.var, "gview", (b.elem or 0) + 1)
             if b.kind == "dict":
+                t = self.cx.tmp("bb")
+                self.from_(t, [b])
+                return Ref(t, "bb")
+            if b.kind == "pins":
                 self.read(b)
                 return VAL
             raise Shape(f"{self.where(e)}: subscript of a {b.kind}")
@@ -731,8 +781,10 @@ class Interp:
         if fn in ("cg.Circuit", "Circuit"):
             return self.mk_circuit(e)
         if fn in ("cg.BlackBox", "BlackBox"):
-            self.plain_args(e)
-            return VAL
+            self.plain_args(e)             # BlackBox.__init__ copies its arguments into new sets (checked by class_shapes)
+            t = self.cx.tmp("bb")
+            self.add(f"PAllocVal {cstr(t)}")
+            return Ref(t, "bb")
         if fn == "nx.DiGraph":
             if e.args or e.keywords:
                 raise Shape(f"{self.where(e)}: nx.DiGraph with arguments")
@@ -776,6 +828,8 @@ class Interp:
                 return self.lib_call(self.w.module_of(self.qual), f.id, e)
             if v is None and f.id in PURE:
                 vals = self.arg_vals(e)
+                if f.id in ("map", "filter", "reduce", "iter", "reversed", "enumerate", "zip") and any(isinstance(x, Ref) and x.kind == "pins" for x in vals):
+                    pass                    # lazily reads the set: still only a read
                 boxes = [x for x in vals if isinstance(x, Ref) and x.kind == "box" and not (x.isdict and not isinstance(x.elem, tuple))]
                 for x in vals:
                     if isinstance(x, Ref) and x not in boxes:
@@ -796,9 +850,15 @@ class Interp:
             b = self.ev(f.value)
             if isinstance(b, Ref):
                 return self.method(b, f.attr, e)
+            if isinstance(b, Val) and f.attr in ("inputs", "outputs") and not e.args and not e.keywords:
+                return self.foreign()      # possibly BlackBox.inputs(): the object's own set
             # a method of an untracked value; a tracked argument turns a named container into a box
             vals = self.arg_vals(e)
             refs = [x for x in vals if isinstance(x, Ref)]
+            if refs and all(x.kind in ("pins", "bb") for x in refs) and f.attr in S_RO | {"update", "join", "extend"}:
+                for x in refs:
+                    self.read(x)           # fresh_set.update(bb.inputs()), a.union(bb.inputs()), ",".join(pins): reads
+                return VAL
             if refs:
                 if isinstance(f.value, ast.Name) and f.attr in ("add", "append", "put", "insert", "extend", "update", "appendleft"):
                     for r in refs:
@@ -900,7 +960,7 @@ class Interp:
             if isinstance(v, Ref):
                 if v.kind == "box" and v.elem in ("val", None) and False:
                     continue
-                if v.kind in ("circ", "graph", "dict"):
+                if v.kind in ("circ", "graph", "dict", "pins"):
                     raise Shape(f"{self.where(e)}: a {v.kind} is passed for non-circuit parameter {p} of {key}")
                 self.read(v)
         shape = self.w.ret_shape(key)
@@ -944,7 +1004,7 @@ class Interp:
                     self.call_summary(f"Circuit.{name}!", fdef, others, e, recv=b)
                 else:
                     for v in self.arg_vals(e):
-                        if isinstance(v, Ref) and v.kind in ("circ", "graph", "dict"):
+                        if isinstance(v, Ref) and v.kind in ("circ", "graph", "dict", "pins"):
                             raise Shape(f"{self.where(e)}: tracked object passed to Circuit.{name}")
                         self.no_ref(v, e)
                 self.add(f"PWrite {cstr(b.var)}")
@@ -987,19 +1047,47 @@ class Interp:
             raise Shape(f"{self.where(e)}: method {name} of a graph view is not classified")
         if b.kind == "dict":
             for v in vals:
-                if isinstance(v, Ref) and v.kind != "box":
+                if isinstance(v, Ref) and v.kind not in ("box", "bb"):
                     raise Shape(f"{self.where(e)}: a {v.kind} is passed to dict.{name}")
             if name == "copy":
                 t = self.cx.tmp("b")
                 self.add(f"PCopyDict {cstr(t)} {cstr(b.var)}")
                 return Ref(t, "dict")
+            if name == "values":
+                return Ref(b.var, "box", "bb")
+            if name == "items":
+                return Ref(b.var, "box", ("item", "bb"))
+            if name == "get":
+                self.read(b)
+                return self.elem_of(Ref(b.var, "box", "bb"), e, keyed=True)
             if name in D_RO:
                 self.read(b)
                 return VAL
             if name in D_MUT:
                 self.add(f"PWrite {cstr(b.var)}")
-                return VAL
+                return self.elem_of(Ref(b.var, "box", "bb"), e, keyed=True) if name in ("pop", "setdefault") else VAL
             raise Shape(f"{self.where(e)}: dict method {name} is not classified")
+        if b.kind == "bb":
+            for v in vals:
+                self.no_ref(v, e)
+            if name in ("inputs", "outputs"):
+                return Ref(b.var, "pins")          # the BlackBox's own set, not a copy
+            if name == "io":
+                self.read(b)
+                return VAL                         # a new set
+            raise Shape(f"{self.where(e)}: BlackBox method {name} is not classified")
+        if b.kind == "pins":
+            for v in vals:
+                if isinstance(v, Ref) and v.kind not in ("pins", "bb"):
+                    raise Shape(f"{self.where(e)}: a {v.kind} is passed to set.{name}")
+                self.no_ref(v, e)
+            if name in S_RO:
+                self.read(b)
+                return VAL                         # union/difference/copy ...: a new set
+            if name in S_MUT:
+                self.add(f"PWriteVal {cstr(b.var)}")
+                return VAL
+            raise Shape(f"{self.where(e)}: set method {name} is not classified")
         if b.kind == "box":
             refs = [v for v in vals if isinstance(v, Ref)]
             if name in ("add", "append", "put", "insert", "extend", "update", "appendleft"):
@@ -1033,7 +1121,7 @@ class Interp:
             v = self.flat(self.ev(got[a.arg]), e) if a.arg in got else VAL
             if isinstance(v, Ref) and v.kind != "gview":
                 d = self.cx.newvar(f"{name}.{a.arg}")
-                self.from_(d, [v])
+                self.alias(d, v)
                 sc.names[a.arg] = Ref(d, v.kind, v.elem)
             elif isinstance(v, Ref):
                 raise Shape(f"{self.where(e)}: a graph view is passed to nested function {name}")
@@ -1064,6 +1152,7 @@ class World:
             raise Shape("class Circuit not found")
         self.methods = {n.name: n for n in cls[0].body if isinstance(n, ast.FunctionDef)}
         self.init_shape(self.methods.get("__init__"))
+        self.blackbox_shape(tree)
         self.done, self.busy = {}, set()
         self._mut = {}
 
@@ -1078,6 +1167,25 @@ class World:
         got = [_norm(s) for s in body]
         if got != want:
             raise Shape(f"Circuit.__init__ is not the modelled constructor: {got}")
+
+    def blackbox_shape(self, tree):
+        """class BlackBox must be the object the model describes: the constructor copies its arguments into two new sets,
+        inputs()/outputs() return those sets themselves, io() builds a new set; nothing else"""
+        cls = [n for n in tree.body if isinstance(n, ast.ClassDef) and n.name == "BlackBox"]
+        if len(cls) != 1:
+            raise Shape("class BlackBox not found")
+        want = {"__init__": ["self.name = name", "self.input_set = set(inputs)", "self.output_set = set(outputs)"],
+                "inputs": ["return self.input_set"], "outputs": ["return self.output_set"],
+                "io": ["return self.output_set | self.input_set"]}
+        got = {}
+        for m in cls[0].body:
+            if isinstance(m, ast.FunctionDef):
+                got[m.name] = [_norm(x) for x in m.body if not (isinstance(x, ast.Expr) and isinstance(x.value, ast.Constant))]
+            elif not (isinstance(m, ast.Expr) and isinstance(m.value, ast.Constant)):
+                raise Shape(f"class BlackBox: unexpected member {_norm(m)[:60]}")
+        if got != want:
+            bad = sorted(k for k in set(got) | set(want) if got.get(k) != want.get(k))
+            raise Shape(f"class BlackBox is not the modelled object: {bad} -> {[got.get(k) for k in bad]}")
 
     def module_of(self, qual):
         return qual.split(".")[0] if not qual.startswith("Circuit.") else "circuit"
@@ -1173,9 +1281,7 @@ def gen_effects(repo):
         raise Shape(f"Circuit methods: mutators found {sorted(muts)}, read-only found {sorted(ros)}; the property's lists differ: "
                     f"{sorted(set(muts) ^ set(MUTATORS))} {sorted(set(ros) ^ set(RO_METHODS))}")
     keys = [f"{mod}.{n}" for mod in SCOPE for n in SCOPE[mod]] + [f"Circuit.{m}" for m in RO_METHODS]
-    for m in MUTATORS:
-        if [p for p in w.circ_params(w.methods[m]) if p != "self"]:
-            keys.append(f"Circuit.{m}!")
+    keys += [f"Circuit.{m}!" for m in MUTATORS]     # what a mutator does to everything but `self` (circuit arguments, BlackBoxes)
     for k in keys:
         w.translate(k)
     out = "(* GENERATED by gen/plugins/effects.py from circuitgraph/{tx,props,sat,io,utils,circuit}.py -- do not edit *)\n"
